@@ -22,6 +22,10 @@ pub fn check(tier: Tier) -> Check {
         parts.push(Part::new("C14/drop", json!({"depth": d, "r": 1}), k, tier.pick(40, 600)));
     }
     parts.push(Part::new("C14/drop", json!({"depth": tier.pick(4, 6), "r": 1, "flavour": 1}), 1, tier.pick(40, 600)));
+    // a Maximum Packet Size in force: some requests are refused while the context lives; once it is
+    // gone every request fails with ContextExited, whatever its size
+    parts.push(Part::new("C14/drop", json!({"depth": tier.pick(4, 5), "r": 0, "m": 12}), 1, tier.pick(40, 600)));
+    parts.push(Part::new("C14/drop", json!({"depth": tier.pick(5, 6), "r": 1, "m": 12}), 0, tier.pick(40, 600)));
     // two established subscriptions (one stream taken, one response kept), several buffered messages
     // persistent back-pressure on the write half (WriteBlock / WriteUnblock events)
     parts.push(Part::new("C14/drop", json!({"depth": tier.pick(4, 5), "r": 1, "wb": true}), 1, tier.pick(40, 600)));
@@ -33,7 +37,7 @@ pub fn check(tier: Tier) -> Check {
         also_rel: false,
         property: "C14",
         level: "model_checking",
-        rule: "the Context is dropped at every point of every bounded history of operations and subscriptions (operations queued-but-unpolled via held tasks, awaiting acknowledgement, between the QoS 2 phases, acknowledged-but-unpolled; streams with and without buffered messages), then up to two more operations are started; under the strict-waker executor every future must complete / every stream must drain and end; non-trivial = ContextExited was delivered to a pending operation or a stream ended".into(),
+        rule: "the Context is dropped at every point of every bounded history of operations and subscriptions (operations queued-but-unpolled via held tasks, awaiting acknowledgement, between the QoS 2 phases, acknowledged-but-unpolled; streams with and without buffered messages), then up to two more operations are started (in two parts under a Maximum Packet Size that some of them exceed); under the strict-waker executor every future must complete / every stream must drain and end; non-trivial = ContextExited was delivered to a pending operation or a stream ended".into(),
         assumptions: vec!["'context gone' means the Context value has been dropped".into()],
         parts,
     }
@@ -94,7 +98,11 @@ pub fn scenario(name: &str, params: &Value) -> Scenario {
         let mut sys = Sys::new("C14", &name, chz);
         sys.params = params.clone();
         sys.m.check_client_acks = false;
-        sys.bring_up_fl(if r == 0 { vec![] } else { receive_max(r) }, params["flavour"].as_u64().unwrap_or(0));
+        let mut cprops = if r == 0 { vec![] } else { receive_max(r) };
+        if let Some(m) = params["m"].as_u64() {
+            cprops.push(pvcore::refcodec::Prop::u32(pvcore::refcodec::P_MAXIMUM_PACKET_SIZE, m as u32));
+        }
+        sys.bring_up_fl(cprops, params["flavour"].as_u64().unwrap_or(0));
         let mut specs = std_ops();
         // a user DISCONNECT that may still be queued (held context) when the context goes away
         specs.push(OpSpec::Disconnect(DisconnectSpec::default()));
